@@ -212,6 +212,16 @@ prop('C18', src='props/c18_deps.cpp', engine='rapidcheck (stateful)',
      technique='stateful property-based testing of injection histories (rapidcheck) with recording dependency sets A/B and link-time interposition of libc malloc/free/time; exhaustive single-bit random outputs',
      level_text='Call logs of two independent dependency sets and interposed libc functions decide, per operation, which implementation was used; all single-bit random outputs are enumerated. Exploration over histories.')
 
+prop('C17', src='props/c17_bound.cpp',
+     plan={'quick': [{'variant': 'asan', 'workers': 16}], 'thorough': [{'variant': 'asan', 'workers': 16}, {'variant': 'rel', 'workers': 16}]},
+     exhaustive=True,
+     rule='(i) exhaustive: the 2048 words of every registered language as the library itself emits them give per-position maxima (all indices; even indices only in word 3, whose low bit is the reserved feature bit; check word unconstrained) of three lengths - the decomposed phrase assembled inside encode (NFKD words + output separators), the output (NFC), the decomposed form the decoder handles - i.e. sound upper bounds over all 2048^15 word vectors, recorded in the evidence notes; '
+          '(ii) witness search: all 15 data words = the longest word x 256 (quick) / 2048 (thorough) coins per language, then rapidcheck vectors drawn from the 1..40 longest words x coins. Oracle for every witness under ASan: encode returns strlen(output); all three lengths < POLYSEED_STR_SIZE; decode_explicit of the output is OK with an equal seed and the normaliser never truncated. '
+          'Only concrete seeds are violations; a bound that is not below the buffer size without a witness is reported as a note. Non-trivial = witness whose longest form reaches 90% of its language\'s bound.',
+     required_classes={'any': ['witness>=90%-of-bound', 'witness:Korean', 'witness:Japanese', 'bound:Korean']},
+     technique='exhaustive enumeration of word lengths (sound bound over all word vectors) + property-based witness search over extremal seeds (rapidcheck) under ASan',
+     level_text='The bound is decided by enumeration of all 20480 words (a sound upper bound for every word vector) and confirmed by encoding/decoding extremal witness seeds under ASan. Exploration with an exhaustive bound computation.')
+
 NOT_APPLICABLE = {}
 MANIFEST_NOTES = 'All checks: ./check run <ID> --tier quick|thorough; VERIF_SEED selects the generator seed; evidence in /verif/evidence/<ID>.json; replay files under /verif/replays/<ID>/; committed regression cases under /verif/regress/<ID>/. See DESIGN.md.'
 for _p in ['C%02d' % i for i in range(1, 21)]:
